@@ -23,6 +23,10 @@ MASK = (1 << 64) - 1
 MAX_FAILS_PER_SHARD = 40  # failures kept (in enumeration order) per shard and code; all are counted
 
 
+class HarnessError(Exception):
+    """The harness cannot observe what it needs (e.g. a seam it wraps no longer exists): exit 2, never a VIOLATION."""
+
+
 def h64(obj: Any) -> int:
     """Stable 64-bit hash of a repr-able value (independent of PYTHONHASHSEED)."""
     return int.from_bytes(hashlib.blake2b(repr(obj).encode(), digest_size=8).digest(), 'little')
@@ -99,6 +103,9 @@ def _worker(args):
         world.reset()
         try:
             r = fam.run(case)
+        except HarnessError as e:
+            harness_errors.append({'case': case, 'harness_error': str(e)})
+            r = Res()
         except Exception as e:  # an exception escaping the oracle is a finding in itself
             r = Res()
             r.fail('EXC:' + type(e).__name__, traceback.format_exc(limit=6)[-900:])
